@@ -40,6 +40,8 @@ def half_payload(half):
             out = out.replace('"', "'")
         if kind in ('meta-key', 'meta-css', 'manual-label', 'superscript', 'subscript'):
             out = out.replace(' ', '').replace('\t', '')
+        if half.startswith('&'):
+            out = out.replace(';', ',')         # '&#x' + ... + ';' would spell a complete (bogus) character reference, which is passed through by design
         if rng.random() < 0.7:
             h = half
             if kind in ('link-url', 'autolink', 'email', 'meta-key', 'meta-css', 'manual-label', 'superscript', 'subscript'):
